@@ -31,7 +31,7 @@ namespace foonathan
                 // memory is taken from fixed_memory_stack, it must be sufficient
                 free_list_array(fixed_memory_stack& stack, const char* end,
                                 std::size_t max_node_size) noexcept
-                : no_elements_(AccessPolicy::index_from_size(max_node_size) - min_size_index + 1)
+                : no_elements_(max_index(max_node_size) - min_size_index + 1)
                 {
                     array_ = static_cast<FreeList*>(
                         stack.allocate(end, no_elements_ * sizeof(FreeList), alignof(FreeList)));
@@ -86,6 +86,13 @@ namespace foonathan
                 }
 
             private:
+                // index of the last list, never below the list for the minimum element size (same as get())
+                static std::size_t max_index(std::size_t max_node_size) noexcept
+                {
+                    auto i = AccessPolicy::index_from_size(max_node_size);
+                    return i < min_size_index ? min_size_index : i;
+                }
+
                 static const std::size_t min_size_index;
 
                 FreeList*   array_;
